@@ -1369,6 +1369,12 @@ func buildGeoms(r *rand.Rand) []namedGeom {
 	gcs.MustPush(geom.NewPointFlat(geom.XY, []float64{8, 47}).SetSRID(4326), geom.NewLineStringFlat(geom.XY, rnd(4, 2, 30)).SetSRID(4326),
 		geom.NewPolygonFlat(geom.XY, append([]float64{}, ring...), []int{len(ring)}).SetSRID(3857), geom.NewPointFlat(geom.XY, []float64{1, 1}))
 	add("gc-srid-members", gcs)
+	// ordinates that are NaN with a payload other than the library's "empty point" pattern (an unknown Z set to math.NaN()):
+	// an encoder has no business normalising them IN the caller's geometry (snapshots are bitwise)
+	qnan := math.Float64frombits(0x7FF8000000000001)
+	add("pt-nan-z", geom.NewPointFlat(geom.XYZ, []float64{3, 4, qnan}))
+	add("pt-all-nan", geom.NewPointFlat(geom.XY, []float64{qnan, math.NaN()}))
+	add("mpt-nan-m", geom.NewMultiPointFlat(geom.XYM, []float64{1, 2, qnan, 3, 4, 5, 6, 7, math.NaN()}))
 	// legal but degenerate: rings that are not closed, each followed by further rings / members in the same flat array
 	// (anything appended "to" such a ring lands in its neighbour)
 	open := []float64{0, 0, 10, 0, 10, 10, 0, 10}
